@@ -2,6 +2,8 @@ import Tickit.Model.EvLoop
 import Tickit.Model.EvLoopMulti
 import Tickit.Model.EvLoopFb
 import Tickit.Model.EvLoopSpec
+import Tickit.Model.EvLoopTerm
+import Tickit.Model.EvLoopUnbind
 import Tickit.Gen.EvLoop
 import Tickit.Driver.Common
 /-
@@ -155,6 +157,12 @@ structure DSt where
   started : Bool
   /-- the history runs in the self-pipe configuration (`new … fb`): `m.st` is a state of Model/EvLoopFb.lean -/
   fb : Bool := false
+  /-- `new … tt`: a stand-alone terminal (number 0) observes SIGWINCH from before the instance was built -/
+  ttmode : Bool := false
+  /-- the observer list of term.c (`first_sigwinch_observer` …) -/
+  tobs : List Nat := []
+  /-- unbind handlers (`ubeh k …`, Model/EvLoopUnbind.lean) -/
+  ubehs : List Beh := []
 
 def cfgOfSource : Config :=
   { ioFlagMask := Gen.EvLoop.ioFlagMask, timersPop := Gen.EvLoop.timersPop, errnoSaved := Gen.EvLoop.errnoSaved,
@@ -202,14 +210,68 @@ def stepFb (d : DSt) (ts : List String) (impl : String) : DSt × String × Strin
     | _ => 0
   let (s, verdict) := Spec.step d.s wop (toks impl) why owner
   let s := if isNew op then { s with fb := true } else s
-  ({ m := { d.m with st := st }, s := s, started := true, fb := true }, obs, verdict)
+  ({ d with m := { d.m with st := st }, s := s, started := true, fb := true }, obs, verdict)
+
+/-- `obs 0|1`: `tickit_term_observe_sigwinch` of the second stand-alone terminal (Model/EvLoopTerm.lean). -/
+def stepObs (d : DSt) (observe : Bool) (impl : String) : DSt × String × String :=
+  let w0 := d.m
+  if !w0.st.alive then (d, showObs { w0.st with log := [] } (.clock 0) true [], "")
+  else if !d.ttmode then (d, showObs { w0.st with log := [] } .bad false [], "")
+  else
+    let r := termObserve d.tobs { w0.st with log := [] } 1 observe
+    let w := if w0.st.isOk then w0.sync r.2 else { w0 with st := { w0.st with log := [] } }
+    let tobs := if w0.st.isOk then r.1 else d.tobs
+    let why := match w.st.status with
+      | .killed s => s!"killed by signal {s}"
+      | _ => ""
+    let (s, verdict) := Spec.step d.s (.op (.clock 0)) (toks impl) why 0
+    ({ d with m := w, s := s, tobs := tobs }, showObs w.st (.clock 0) false [], verdict)
+
+/-- `ubeh k a1 a2 …`: the unbind handler of watch slot `k`. -/
+def stepUbeh (d : DSt) (k : Int) (acts : List String) : DSt × String × String :=
+  let w0 := d.m
+  let st := { w0.st with log := [] }
+  if !w0.st.alive then (d, showObs st (.clock 0) true [], "")
+  else if d.ubehs.any (fun (b : Beh) => b.k = k) || !w0.st.isOk then (d, showObs st (.clock 0) false [], "")
+  else
+    let b : Beh := { k := k, n := 0, acts := acts.map fun t => match parseAct t with | .cancel _ => .nop | x => x }
+    ({ d with ubehs := d.ubehs ++ [b], s := { d.s with ubehs := d.s.ubehs ++ [b] } }, showObs st (.clock 0) false [], "")
+
+/-- A top-level `cancel k` of a watch that has an unbind handler (Model/EvLoopUnbind.lean). -/
+def stepCancelU (d : DSt) (k : Int) (impl : String) : DSt × String × String :=
+  let w0 := d.m
+  let dead := !w0.st.alive
+  let w := w0.sync (applyCancelU d.ubehs w0.st k)
+  let m := w.st
+  let why := match m.status with
+    | .ub x => ubName x
+    | .killed s => s!"killed by signal {s}"
+    | _ => ""
+  let owner := match m.status with
+    | .ub x => ubOwner x
+    | _ => 0
+  let (s, verdict) := Spec.step d.s (.op (.act (.cancel k))) (toks impl) why owner
+  ({ d with m := w, s := s }, showObs m (.act (.cancel k)) dead [], verdict)
 
 def step (d : DSt) (ts : List String) (impl : String) : DSt × String × String :=
   -- `new [Cnn] fb` starts a history in the self-pipe configuration
   let startsFb := ts.head? = some "new" && ts.contains "fb"
   let startsNew := ts.head? = some "new"
+  let startsTt := startsNew && !startsFb && ts.contains "tt"
+  let d := if startsNew then { d with ttmode := startsTt, tobs := if startsTt then [0] else [], ubehs := [] } else d
+  let ts := if startsNew then ts.filter (· ≠ "tt") else ts
   if startsFb || (d.fb && !startsNew) then stepFb d (ts.filter (· ≠ "fb")) impl else
   let d := { d with fb := false }
+  if !d.fb && ts = ["obs", "1"] then stepObs d true impl else
+  if !d.fb && ts = ["obs", "0"] then stepObs d false impl else
+  let ub? : Option (Int × List String) := match ts with
+    | "ubeh" :: k :: acts => (int? k).map fun k => (k, acts)
+    | _ => none
+  if let some (k, acts) := ub? then stepUbeh d k acts else
+  let cu? : Option Int := match ts with
+    | ["cancel", k] => (int? k).bind fun k => if d.ubehs.any (fun (b : Beh) => b.k = k) then some k else none
+    | _ => none
+  if let some k := cu? then stepCancelU d k impl else
   let wop := parseWOp ts
   let op := match wop with | .op o => o | _ => .bad
   let named := match wop with | .op _ => false | _ => true
@@ -232,7 +294,7 @@ def step (d : DSt) (ts : List String) (impl : String) : DSt × String × String 
     | .ub x => ubOwner x
     | _ => 0
   let (s, verdict) := Spec.step d.s wop (toks impl) why owner
-  ({ m := w, s := s, started := true, fb := false }, obs, verdict)
+  ({ d with m := w, s := s, started := true, fb := false }, obs, verdict)
 
 def engine : Engine :=
   { σ := DSt, init := { m := { st := { cfg := cfgOfSource } }, s := Spec.init, started := false }, step := step }
